@@ -25,25 +25,18 @@ package protocol_test
 // progress file names the case.
 
 import (
-	"bytes"
 	"encoding/binary"
 	"encoding/hex"
 	"fmt"
 	"io"
-	"math/big"
-	"os"
 	"strings"
 	"sync"
 	"sync/atomic"
 	"testing"
 	"time"
 
-	mapset "github.com/deckarep/golang-set"
 	"github.com/golang/protobuf/proto"
-	"github.com/idena-network/idena-go/blockchain/attachments"
-	"github.com/idena-network/idena-go/blockchain/fee"
 	"github.com/idena-network/idena-go/blockchain/types"
-	"github.com/idena-network/idena-go/blockchain/validation"
 	"github.com/idena-network/idena-go/common"
 	"github.com/idena-network/idena-go/common/eventbus"
 	"github.com/idena-network/idena-go/consensus"
@@ -51,7 +44,6 @@ import (
 	"github.com/idena-network/idena-go/core/state/snapshot"
 	"github.com/idena-network/idena-go/crypto"
 	"github.com/idena-network/idena-go/events"
-	"github.com/idena-network/idena-go/log"
 	models "github.com/idena-network/idena-go/protobuf"
 	"github.com/idena-network/idena-go/protocol"
 	"github.com/idena-network/idena-go/verifsim"
@@ -161,6 +153,7 @@ type c12Sut struct {
 	ev      [4]int64 // bus events seen: new tx, flip key, key package, flip
 	props   []*types.BlockProposal
 	emptyHash common.Hash
+	carrierTpl *types.Block
 	corpus  []c12Item
 	byCode  map[uint64][]int
 }
